@@ -412,12 +412,12 @@ Proof.
   remember (p0 :: rest) as sg eqn:Esg.
   remember (payer_of t) as payer eqn:Ep.
   destruct (is_nil (t_msgs t) || negb (forallb msg_valid (t_msgs t)))%bool; [discriminate|].
+  destruct (t_gas t <=? 0) eqn:Gas; [discriminate|].
   destruct (custody_check c (t_msgs t)) as [[]| |] eqn:CU; cbn [bind] in H; try discriminate.
   destruct (existsb (fun x => snd x <? 0) (t_fee t)); [discriminate|].
   destruct (negb (Nat.eqb (List.length (t_seqs t)) (List.length sg))); [discriminate|].
   destruct (validate_fee c (t_fee t) (t_msgs t)) as [[]| |] eqn:V; cbn [bind] in H; try discriminate.
   destruct (negb (forallb (has_acct s) sg)); [discriminate|].
-  destruct (t_gas t <=? 0) eqn:Gas; [discriminate|].
   destruct (t_granter t) eqn:Gr; [discriminate|].
   destruct (deduct wired (set_pubkeys s sg) payer (t_fee t)) as [s2| |] eqn:D; cbn [bind] in H; try discriminate.
   destruct (poor_check sh (c_filt c) (t_msgs t)) as [[]| |] eqn:P; cbn [bind] in H; try discriminate.
@@ -706,12 +706,12 @@ Proof.
   destruct (tx_signers t) as [|p0 rest] eqn:Sg; [discriminate|].
   remember (p0 :: rest) as sg eqn:Esg.
   destruct (is_nil (t_msgs t) || negb (forallb msg_valid (t_msgs t)))%bool; [discriminate|].
+  destruct (t_gas t <=? 0); [discriminate|].
   destruct (custody_check c (t_msgs t)) as [[]| |]; cbn [bind] in H; try discriminate.
   destruct (existsb (fun x => snd x <? 0) (t_fee t)); [discriminate|].
   destruct (negb (Nat.eqb (List.length (t_seqs t)) (List.length sg))); [discriminate|].
   destruct (validate_fee c (t_fee t) (t_msgs t)) as [[]| |]; cbn [bind] in H; try discriminate.
   destruct (forallb (has_acct s) sg) eqn:HA; cbn [negb] in H; [|discriminate].
-  destruct (t_gas t <=? 0); [discriminate|].
   destruct (t_granter t); [discriminate|].
   destruct (deduct wired (set_pubkeys s sg) (payer_of t) (t_fee t)) as [s2| |] eqn:D; cbn [bind] in H; try discriminate.
   destruct (poor_check sh (c_filt c) (t_msgs t)) as [[]| |]; cbn [bind] in H; try discriminate.
